@@ -26,11 +26,12 @@ Definition init_state (d : tdef) : lstate := mkls (t_name d) (t_is_seq d) (own_n
 Fixpoint find_state (n : str) (st : list lstate) : option lstate :=
   match st with [] => None | s :: r => if str_eqb n (l_name s) then Some s else find_state n r end.
 
-(* link_components_of_notation for one definition: the members of each referenced SEQUENCE, as they are now, appended *)
+(* link_components_of_notation for one definition: the members of each referenced SEQUENCE or SET, as they are now, appended
+   (the kind of the referenced type is not compared with the kind of the including one) *)
 Definition link_one (st : list lstate) (s : lstate) : lstate :=
   mkls (l_name s) (l_is_seq s)
        (l_members s ++ flat_map (fun r => match find_state r st with
-                                          | Some t => if l_is_seq t then l_members t else []
+                                          | Some t => l_members t
                                           | None => []
                                           end) (l_refs s))
        (l_refs s).
